@@ -148,6 +148,10 @@ def run(ctx):
     tmp = tempfile.mkdtemp(prefix="c18-", dir=ctx.work)
     sd = structure_defn()
     sobj = xdoc.build(sd)
+    import pathlib
+    sd_path = os.path.join(tmp, "structure-definition.xml")
+    with open(sd_path, "w") as f:
+        f.write(xdoc.render(sd, style="prefix", prefix="xtce"))
     for ci, c in enumerate(cases):
         files_pk = []
         ids = {}
@@ -166,7 +170,14 @@ def run(ctx):
         try:
             with warnings.catch_warnings():
                 warnings.simplefilter("ignore")
-                ds = xarr.create_dataset(paths, sobj, root_container_name="ROOT")
+                # the documented call shapes: file list as list / tuple / iterator of str or Path, a single path on its own;
+                # the definition as an object or as a path to its document
+                shape = ci % 4
+                files_arg = (list(paths), [pathlib.Path(x) for x in paths], tuple(paths),
+                             (paths[0] if len(paths) == 1 else iter(list(paths))))[shape]
+                defn_arg = (sobj, pathlib.Path(sd_path), sd_path, sobj)[shape]
+                ctx.tally(f"call_shape_{shape}")
+                ds = xarr.create_dataset(files_arg, defn_arg, root_container_name="ROOT")
             got = "built"
         except ValueError:
             got, ds = "rejected", None
